@@ -296,7 +296,7 @@ def check_int(case, ctx):
 def strat_soft(tier):
     lead = st.lists(st.integers(1, 5), min_size=1, max_size=3)
     return st.fixed_dictionaries({'lead': lead, 'K': st.integers(2, 6), 'node': st.sampled_from(['softmax', 'gumbel', 'encoder-softmax', 'encoder-gumbel']),
-                                  'tau': st.sampled_from([1, 0.5, 2.0, 0.1, 3.7]), 'levels': st.sampled_from(['int', 'array']),
+                                  'tau': st.sampled_from([1, 0.5, 2.0, 0.1, 3.7]), 'tau0': st.sampled_from([1, 5.0, 0.3]), 'anneal': st.booleans(), 'levels': st.sampled_from(['int', 'array']),
                                   'force_eq': st.booleans(), 'scale': st.sampled_from([1.0, 5.0]), 'seed': U.seeds})
 
 
@@ -313,15 +313,25 @@ def check_soft(case, ctx):
     v = r.uniform(-1, 1, shape)
     node = case['node']
     ctx.nt(len(lead) >= 2)
-    ctx.label(node, 'lead-dims:%d' % len(lead), 'last-lead==K' if (len(lead) >= 2 and lead[-1] == K) else 'generic')
+    ctx.label(node, 'annealed' if (case.get('anneal', False) and node in ('gumbel', 'encoder-gumbel') and case.get('tau0', 1) != case['tau']) else 'not-annealed',
+              'lead-dims:%d' % len(lead), 'last-lead==K' if (len(lead) >= 2 and lead[-1] == K) else 'generic')
     noise_seed = case['seed'] % 9973
 
+    anneal = case.get('anneal', False) and node in ('gumbel', 'encoder-gumbel')
+    tau0 = case.get('tau0', 1) if anneal else case['tau']
+
     def make():
+        # with anneal: the node is built at temperature tau0 and then annealed to tau by assigning .tau, as the class
+        # docstring tells users to do over the course of an optimisation
         if node == 'softmax':
             return act.Softmax()
         if node == 'gumbel':
-            return act.GumbelSoftmax(tau=case['tau'])
-        est = act.Softmax() if node == 'encoder-softmax' else act.GumbelSoftmax(tau=case['tau'])
+            n_ = act.GumbelSoftmax(tau=tau0)
+            n_.tau = case['tau']
+            return n_
+        est = act.Softmax() if node == 'encoder-softmax' else act.GumbelSoftmax(tau=tau0)
+        if hasattr(est, 'tau'):
+            est.tau = case['tau']
         levels = K if case['levels'] == 'int' else np.arange(K) * 1.5 - 1.0
         return act.DiscreteEncoder(est, levels)
 
@@ -353,14 +363,18 @@ def strat_act(tier):
                                   'a': st.one_of(st.just(1), U.nice_float(0.1, 5).map(lambda v: round(v, 3))),
                                   'x0': st.one_of(st.just(0), U.nice_float(-2, 2).map(lambda v: round(v, 3))),
                                   'y0': st.one_of(st.just(0), U.nice_float(-2, 2).map(lambda v: round(v, 3))),
-                                  'n': st.integers(1, 40), 'span': st.sampled_from([1.0, 3.0, 6.0]), 'seed': U.seeds})
+                                  'n': st.integers(1, 40), 'span': st.sampled_from([1.0, 3.0, 6.0]), 'late': st.booleans(), 'seed': U.seeds})
 
 
 def check_act(case, ctx):
     """Tanh/Arctan/Softplus/Sigmoid: backprop(x) equals d forward/dx (complex-step) for all a, x0, y0; input not modified."""
     from prysm.x.optym import activation as act
     cls = getattr(act, case['node'])
-    n = cls(a=case['a'], x0=case['x0'], y0=case['y0'])
+    if case.get('late', False):
+        n = cls()      # parameters assigned after construction (public attributes)
+        n.a, n.x0, n.y0 = case['a'], case['x0'], case['y0']
+    else:
+        n = cls(a=case['a'], x0=case['x0'], y0=case['y0'])
     x = U.rng_of(case['seed'], 2).uniform(-1, 1, case['n']) * case['span']
     ctx.nt(case['a'] != 1 or case['x0'] != 0 or case['y0'] != 0)
     ctx.label(case['node'], 'default-params' if (case['a'] == 1 and case['x0'] == 0 and case['y0'] == 0) else 'params')
